@@ -375,3 +375,340 @@ B('pkgL_b_exc_line_private_helper_top_down', ['C20'], 'R20.f',
                      "            head, sep, _ = line.partition(':')\n"
                      "            if sep and head and len(head.split()) == 1:\n                return line\n"
                      "        return lines[0]\n\n" + _FROM_STRING))
+
+
+# ------------------------------------------------------------------ R20.g: what the child wrote to stderr is what the hook is given
+_CONSUME = ("        def consume_lines():\n            for line in iter(child_proc.stderr.readline, ''):\n                if not line:\n                    break\n"
+            "                line_text = line.decode('utf8')\n                if line_text.startswith(_MON_PREFIX):\n"
+            "                    to_mon[:] = literal_eval(line_text[len(_MON_PREFIX):])\n                else:\n"
+            "                    sys.stderr.write(line_text)\n                    stderr_buff.append(line_text)\n")
+_BRANCHES = ("                if line_text.startswith(_MON_PREFIX):\n"
+             "                    to_mon[:] = literal_eval(line_text[len(_MON_PREFIX):])\n                else:\n"
+             "                    sys.stderr.write(line_text)\n                    stderr_buff.append(line_text)\n")
+_JOIN = "            tb_str = ''.join(stderr_buff)\n"
+_HOOK = "            err_server = error_func(tb_str, to_mon)\n"
+_WAIT = ("            try:\n                reloader_loop(to_mon, 1)\n            except KeyboardInterrupt:\n                return 0\n"
+         "            except SystemExit as se:\n                if se.code == 3:\n                    continue\n                return se.code\n"
+         "            finally:\n                err_server.shutdown()\n                err_server.server_close()\n            return 0\n")
+_BUILDER = ("        from clastic import flaw\n        err_app = flaw.create_app(tb_str, monitored_files)\n"
+            "        err_server = make_server(hostname, port, err_app)\n"
+            "        thread.start_new_thread(err_server.serve_forever, ())\n        return err_server\n")
+
+B('pkgL_b_reader_guard_clause_inverted', ['C20'], 'R20.g',
+  (SV, _BRANCHES, "                if line_text.startswith(_MON_PREFIX):\n                    sys.stderr.write(line_text)\n"
+                  "                    stderr_buff.append(line_text)\n                    continue\n"
+                  "                to_mon[:] = literal_eval(line_text[len(_MON_PREFIX):])\n"))
+B('pkgL_b_reader_strips_other_prefix', ['C20'], 'R20.g',
+  (SV, "_STDERR_BUFF_SIZE = 1024\n", "_STDERR_BUFF_SIZE = 1024\n_MON_TAG = '__clastic_mon_files'\n"),
+  (SV, "literal_eval(line_text[len(_MON_PREFIX):])", "literal_eval(line_text[len(_MON_TAG):])"))
+B('pkgL_b_child_writes_other_prefix', ['C20'], 'R20.g',
+  (SV, "_STDERR_BUFF_SIZE = 1024\n", "_STDERR_BUFF_SIZE = 1024\n_MON_REPORT = '__clastic_monitored:'\n"),
+  (SV, "sys.stderr.write('%s%r\\n' % (_MON_PREFIX, mon_list))", "sys.stderr.write('%s%r\\n' % (_MON_REPORT, mon_list))"))
+B('pkgL_b_hook_given_one_line', ['C20'], 'R20.g', (SV, _JOIN, "            tb_str = stderr_buff[-1]\n"))
+B('pkgL_b_hook_given_join_of_other_list', ['C20'], 'R20.g', (SV, _JOIN, "            tb_str = ''.join(to_mon)\n"))
+B('pkgL_b_reader_collects_into_own_buffer', ['C20'], 'R20.g',
+  (SV, "        def consume_lines():\n", "        def consume_lines():\n            stderr_buff = deque(maxlen=_STDERR_BUFF_SIZE)\n"))
+B('pkgL_b_report_parsed_from_every_line', ['C20'], 'R20.g',
+  (SV, _BRANCHES, "                to_mon[:] = literal_eval(line_text[len(_MON_PREFIX):])\n"
+                  "                if not line_text.startswith(_MON_PREFIX):\n"
+                  "                    sys.stderr.write(line_text)\n                    stderr_buff.append(line_text)\n"))
+T('pkgL_t_reader_guard_clause', ['C20'],
+  (SV, _BRANCHES, "                if not line_text.startswith(_MON_PREFIX):\n                    sys.stderr.write(line_text)\n"
+                  "                    stderr_buff.append(line_text)\n                    continue\n"
+                  "                report = line_text[len(_MON_PREFIX):]\n                to_mon[:] = literal_eval(report)\n"))
+T('pkgL_t_reader_prefix_length_named', ['C20'],
+  (SV, "        def consume_lines():\n", "        skip = len(_MON_PREFIX)\n\n        def consume_lines():\n"),
+  (SV, "literal_eval(line_text[len(_MON_PREFIX):])", "literal_eval(line_text[skip:])"))
+T('pkgL_t_reader_partition_strip', ['C20'],
+  (SV, "literal_eval(line_text[len(_MON_PREFIX):])", "literal_eval(line_text.partition(_MON_PREFIX)[2])"))
+T('pkgL_t_hook_text_joined_inline', ['C20'],
+  (SV, _JOIN + _HOOK, "            err_server = error_func(''.join(stderr_buff), to_mon)\n"))
+T('pkgL_t_hook_text_join_of_copy', ['C20'],
+  (SV, _JOIN, "            collected = stderr_buff\n            tb_str = u''.join(list(collected))\n"))
+T('pkgL_t_child_report_by_format', ['C20'],
+  (SV, "sys.stderr.write('%s%r\\n' % (_MON_PREFIX, mon_list))", "report_line = '{0}{1!r}\\n'.format(_MON_PREFIX, mon_list)\n            sys.stderr.write(report_line)"))
+
+# ------------------------------------------------------------------ R20.h: the failsafe is served, and taken down on every way round the loop
+B('pkgL_b_cleanup_only_after_normal_wait', ['C20'], 'R20.h',
+  (SV, "            finally:\n                err_server.shutdown()\n                err_server.server_close()\n            return 0\n",
+       "            err_server.shutdown()\n            err_server.server_close()\n            return 0\n"))
+B('pkgL_b_cleanup_in_handlers_but_not_on_restart', ['C20'], 'R20.h',
+  (SV, _WAIT, "            try:\n                reloader_loop(to_mon, 1)\n            except KeyboardInterrupt:\n                code = 0\n"
+              "            except SystemExit as se:\n                if se.code == 3:\n                    continue\n                code = se.code\n"
+              "            else:\n                code = 0\n            err_server.shutdown()\n            err_server.server_close()\n            return code\n"))
+B('pkgL_b_hook_result_dropped', ['C20'], 'R20.h',
+  (SV, _HOOK, "            error_func(tb_str, to_mon)\n"),
+  (SV, "            finally:\n                err_server.shutdown()\n                err_server.server_close()\n", ""))
+B('pkgL_b_hook_called_without_guard', ['C20'], 'R20.h',
+  (SV, "        elif error_func and exit_code == 1 and stderr_buff:\n", "        elif exit_code == 1 and stderr_buff:\n"))
+B('pkgL_b_hook_guard_inverted_in_predicate', ['C20'], 'R20.h',
+  (SV, "        elif error_func and exit_code == 1 and stderr_buff:\n", "        elif _wants_error_page(error_func, exit_code, stderr_buff):\n"),
+  (SV, "def restart_with_reloader(error_func=None):\n",
+       "def _wants_error_page(error_func, exit_code, stderr_buff):\n    if error_func:\n        return False\n"
+       "    return exit_code == 1 and bool(stderr_buff)\n\n\ndef restart_with_reloader(error_func=None):\n"))
+B('pkgL_b_error_server_serves_the_real_app', ['C20'], 'R20.h',
+  (SV, "        err_server = make_server(hostname, port, err_app)\n", "        err_server = make_server(hostname, port, application)\n"))
+B('pkgL_b_error_server_never_started', ['C20'], 'R20.h',
+  (SV, "        thread.start_new_thread(err_server.serve_forever, ())\n        return err_server\n", "        return err_server\n"))
+B('pkgL_b_error_app_returned_instead_of_server', ['C20'], 'R20.h',
+  (SV, "        thread.start_new_thread(err_server.serve_forever, ())\n        return err_server\n",
+       "        thread.start_new_thread(err_server.serve_forever, ())\n        return err_app\n"))
+T('pkgL_t_cleanup_spelled_on_every_way', ['C20'],
+  (SV, _WAIT, "            try:\n                reloader_loop(to_mon, 1)\n            except KeyboardInterrupt:\n                code = 0\n"
+              "            except SystemExit as se:\n                code = se.code\n"
+              "            else:\n                code = 0\n            err_server.shutdown()\n            err_server.server_close()\n"
+              "            if code == 3:\n                continue\n            return code\n"))
+T('pkgL_t_cleanup_public_helper', ['C20'],
+  (SV, "            finally:\n                err_server.shutdown()\n                err_server.server_close()\n",
+       "            finally:\n                stop_server(err_server)\n"),
+  (SV, "def restart_with_reloader(error_func=None):\n",
+       "def stop_server(server):\n    server.shutdown()\n    server.server_close()\n\n\ndef restart_with_reloader(error_func=None):\n"))
+T('pkgL_t_wait_else_return', ['C20'],
+  (SV, "            finally:\n                err_server.shutdown()\n                err_server.server_close()\n            return 0\n",
+       "            else:\n                return 0\n            finally:\n                err_server.shutdown()\n                err_server.server_close()\n"))
+T('pkgL_t_hook_guard_named', ['C20'],
+  (SV, "        if exit_code == 3:\n            continue\n        elif error_func and exit_code == 1 and stderr_buff:\n",
+       "        if exit_code == 3:\n            continue\n        show_error = error_func is not None and exit_code == 1 and len(stderr_buff) > 0\n"
+       "        if show_error:\n"))
+T('pkgL_t_hook_guard_private_predicate', ['C20'],
+  (SV, "        elif error_func and exit_code == 1 and stderr_buff:\n", "        elif _wants_error_page(error_func, exit_code, stderr_buff):\n"),
+  (SV, "def restart_with_reloader(error_func=None):\n",
+       "def _wants_error_page(error_func, exit_code, stderr_buff):\n    if not error_func:\n        return False\n"
+       "    return exit_code == 1 and bool(stderr_buff)\n\n\ndef restart_with_reloader(error_func=None):\n"))
+T('pkgL_t_error_server_thread_object', ['C20'],
+  (SV, "        thread.start_new_thread(err_server.serve_forever, ())\n",
+       "        import threading\n        worker = threading.Thread(target=err_server.serve_forever)\n        worker.daemon = True\n        worker.start()\n"))
+T('pkgL_t_error_server_built_inline', ['C20'],
+  (SV, _BUILDER, "        from clastic.flaw import create_app\n        server = make_server(hostname, port, create_app(tb_str, monitored_files))\n"
+                 "        thread.start_new_thread(server.serve_forever, ())\n        failsafe = server\n        return failsafe\n"))
+
+
+# ------------------------------------------------------------------ R20.i: the failsafe runs no code that is named at run time
+_WZ = ("    try:\n        import werkzeug\n        venv_site_dir = os.path.dirname(werkzeug.__file__)\n"
+       "        ret = [fn for fn in ret if not fn.startswith(venv_site_dir)]\n    except:\n        pass\n")
+_CL = ("    try:\n        import clastic\n        clastic_dir = os.path.dirname(clastic.__file__)\n"
+       "        ret = [fn for fn in ret if not fn.startswith(clastic_dir)]\n    except:\n        pass\n")
+B('pkgL_b_filter_imports_the_monitored_modules', ['C20'], 'R20.i',
+  (FL, _CL, _CL + "    # leave out what cannot even be imported any more\n    importable = []\n    for fn in ret:\n        try:\n"
+                  "            __import__(os.path.splitext(os.path.basename(fn))[0])\n            importable.append(fn)\n"
+                  "        except:\n            pass\n"))
+B('pkgL_b_parser_evals_the_message', ['C20'], 'R20.i',
+  (FL, "        frames = []\n        for pair_idx in", "        if exc_msg.strip()[:1] in ('\"', \"'\"):\n            exc_msg = eval(exc_msg.strip())\n"
+                                                        "        frames = []\n        for pair_idx in"))
+B('pkgL_b_builder_runs_the_script_again', ['C20'], 'R20.i',
+  (SV, "        from clastic import flaw\n", "        from clastic import flaw\n        import runpy\n        try:\n"
+                                             "            runpy.run_path(sys.argv[0])\n        except BaseException:\n            pass\n"))
+B('pkgL_b_module_imported_by_name_from_text', ['C20'], 'R20.i',
+  (FL, "import os\nimport re\n", "import os\nimport re\nimport importlib\n"),
+  (FL, "    non_site_files = _filter_site_files(monitored_files)\n",
+       "    non_site_files = _filter_site_files(monitored_files)\n    try:\n        failed = importlib.import_module(str(traceback_string).split()[-1])\n"
+       "    except Exception:\n        failed = None\n"))
+T('pkgL_t_dunder_import_of_a_fixed_name', ['C20'],
+  (FL, "        import werkzeug\n        venv_site_dir = os.path.dirname(werkzeug.__file__)\n",
+       "        venv_site_dir = os.path.dirname(__import__('werkzeug').__file__)\n"))
+T('pkgL_t_import_module_over_constant_names', ['C20'],
+  (FL, "import os\nimport re\n", "import os\nimport re\nimport importlib\n"),
+  (FL, _WZ + _CL, "    for pkg_name in ('werkzeug', 'clastic'):\n        try:\n            pkg_dir = os.path.dirname(importlib.import_module(pkg_name).__file__)\n"
+                  "            ret = [fn for fn in ret if not fn.startswith(pkg_dir)]\n        except:\n            pass\n"))
+
+# ------------------------------------------------------------------ R20.j: a module imported inside a function cannot stop the construction
+B('pkgL_b_optional_package_imported_unguarded', ['C20'], 'R20.j',
+  (FL, _WZ, "    import pkg_resources\n    dist_dir = os.path.dirname(pkg_resources.__file__)\n"
+            "    ret = [fn for fn in ret if not fn.startswith(dist_dir)]\n" + _WZ))
+B('pkgL_b_optional_import_handler_raises_again', ['C20'], 'R20.j',
+  (FL, _WZ, "    try:\n        import pkg_resources\n    except ImportError:\n        raise RuntimeError('setuptools is needed to tell site files')\n"
+            "    ret = [fn for fn in ret if not fn.startswith(os.path.dirname(pkg_resources.__file__))]\n" + _WZ))
+B('pkgL_b_optional_import_in_create_app', ['C20'], 'R20.j',
+  (FL, "    non_site_files = _filter_site_files(monitored_files)\n",
+       "    from pygments.lexers import PythonTracebackLexer\n    non_site_files = _filter_site_files(monitored_files)\n"))
+B('pkgL_b_optional_import_in_public_helper', ['C20'], 'R20.j',
+  (FL, _WZ, "    ret = [fn for fn in ret if not fn.startswith(setuptools_dir())]\n" + _WZ),
+  (FL, "def _filter_site_files(paths):\n", "def setuptools_dir():\n    import setuptools\n    return os.path.dirname(setuptools.__file__)\n\n\n"
+                                           "def _filter_site_files(paths):\n"))
+T('pkgL_t_optional_import_guarded', ['C20'],
+  (FL, _WZ, "    try:\n        import pkg_resources\n        dist_dir = os.path.dirname(pkg_resources.__file__)\n"
+            "        ret = [fn for fn in ret if not fn.startswith(dist_dir)]\n    except ImportError:\n        pass\n" + _WZ))
+T('pkgL_t_stdlib_import_in_function', ['C20'],
+  (FL, "    main_lib_dir = os.path.dirname(ast.__file__)\n", "    import sysconfig\n    main_lib_dir = sysconfig.get_paths()['stdlib']\n"))
+T('pkgL_t_optional_import_in_helper_called_under_try', ['C20'],
+  (FL, _WZ, "    try:\n        ret = [fn for fn in ret if not fn.startswith(setuptools_dir())]\n    except Exception:\n        pass\n" + _WZ),
+  (FL, "def _filter_site_files(paths):\n", "def setuptools_dir():\n    import setuptools\n    return os.path.dirname(setuptools.__file__)\n\n\n"
+                                           "def _filter_site_files(paths):\n"))
+
+
+# ------------------------------------------------------------------ R20.f (2): the search from the end covers the last line
+B('pkgL_b_exc_line_search_skips_last_line', ['C20'], 'R20.f',
+  (FL, "        for line in reversed(tb_lines):\n", "        for line in reversed(tb_lines[:-1]):\n"))
+B('pkgL_b_exc_line_reversed_slice_from_second_last', ['C20'], 'R20.f',
+  (FL, "        for line in reversed(tb_lines):\n", "        for line in tb_lines[-2::-1]:\n"))
+B('pkgL_b_exc_line_candidates_without_last', ['C20'], 'R20.f',
+  (FL, "        for line in reversed(tb_lines):\n", "        candidates = tb_lines[1:-1]\n        for line in reversed(candidates):\n"))
+B('pkgL_b_exc_line_descending_index_off_by_one', ['C20'], 'R20.f',
+  (FL, _SEARCH, "        for pos in range(len(tb_lines) - 2, -1, -1):\n"
+                "            exc_type, sep, exc_msg = tb_lines[pos].partition(':')\n"
+                "            if sep and exc_type and len(exc_type.split()) == 1:\n"
+                "                break\n"))
+B('pkgL_b_exc_line_negative_walk_off_by_one', ['C20'], 'R20.f',
+  (FL, _SEARCH, "        for back in range(2, len(tb_lines) + 1):\n"
+                "            exc_type, sep, exc_msg = tb_lines[-back].partition(':')\n"
+                "            if sep and exc_type and len(exc_type.split()) == 1:\n"
+                "                break\n"))
+B('pkgL_b_exc_line_fixed_second_last', ['C20'], 'R20.f',
+  (FL, _SEARCH, "        exc_type, sep, exc_msg = tb_lines[-2].partition(':')\n"))
+T('pkgL_t_exc_line_search_in_full_copy', ['C20'],
+  (FL, "        for line in reversed(tb_lines):\n", "        for line in reversed(tb_lines[:]):\n"))
+T('pkgL_t_exc_line_reversed_slice_from_last', ['C20'],
+  (FL, "        for line in reversed(tb_lines):\n", "        for line in tb_lines[-1::-1]:\n"))
+T('pkgL_t_exc_line_complement_index', ['C20'],
+  (FL, _SEARCH, "        for i in range(len(tb_lines)):\n"
+                "            exc_type, sep, exc_msg = tb_lines[~i].partition(':')\n"
+                "            if sep and exc_type and len(exc_type.split()) == 1:\n"
+                "                break\n"))
+
+
+# ------------------------------------------------------------------ R20.c (taint): the text reaches HTML only as a value of the render context
+_REG = "    arf.register_source('flaw_tmpl', _FLAW_TEMPLATE)\n"
+B('pkgL_b_text_spliced_into_template_source', ['C20'], 'R20.c',
+  (FL, _REG, "    arf.register_source('flaw_tmpl', _FLAW_TEMPLATE.replace('{tb_str}', traceback_string))\n"))
+B('pkgL_b_file_list_appended_to_template_source', ['C20'], 'R20.c',
+  (FL, _REG, "    page_source = _FLAW_TEMPLATE\n    if monitored_files:\n        page_source = page_source + u'<!-- %s -->' % u', '.join(monitored_files)\n"
+             "    arf.register_source('flaw_tmpl', page_source)\n"))
+B('pkgL_b_parsed_type_in_template_title', ['C20'], 'R20.c',
+  (FL, _REG, "    title = parsed_error.get('exc_type', u'error')\n"
+             "    arf.register_source('flaw_tmpl', _FLAW_TEMPLATE.replace(u\"Oh, Flaw'd\", u\"Oh, Flaw'd: \" + title))\n"))
+B('pkgL_b_endpoint_answers_with_handmade_html', ['C20'], 'R20.c',
+  (FL, "from .application import Application\n", "from .application import Application\nfrom werkzeug.wrappers import Response\n"),
+  (FL, "    return {'mon_files': mon_files,\n", "    if not parsed_error:\n        return Response(u'<h2>%s</h2><pre>%s</pre>' % (last_line, tb_str), mimetype='text/html')\n"
+                                              "    return {'mon_files': mon_files,\n"))
+B('pkgL_b_endpoint_answers_with_fstring_html', ['C20'], 'R20.c',
+  (FL, "from .application import Application\n", "from .application import Application\nfrom werkzeug.wrappers import Response\n"),
+  (FL, "    return {'mon_files': mon_files,\n", "    if not mon_files:\n        page = f'<html><body><pre>{tb_str}</pre></body></html>'\n"
+                                              "        return Response(page, content_type='text/html')\n    return {'mon_files': mon_files,\n"))
+T('pkgL_t_template_from_constant_parts', ['C20'],
+  (FL, _REG, "    page_source = _FLAW_TEMPLATE + u'<!-- clastic failsafe -->\\n'\n    arf.register_source('flaw_tmpl', page_source)\n"))
+T('pkgL_t_context_value_built_from_text', ['C20'],
+  (FL, "            'last_line': last_line,\n", "            'last_line': u'%s' % (last_line,),\n"))
+
+
+# ------------------------------------------------------------------ R20.d (2): no bytes-only method on the path a text takes
+_DECODE = "        if not isinstance(tb_str, str):\n            tb_str = tb_str.decode('utf-8')\n"
+B('pkgL_b_decode_guard_inverted', ['C20'], 'R20.d',
+  (FL, _DECODE, "        if isinstance(tb_str, str):\n            tb_str = tb_str.decode('utf-8')\n"))
+B('pkgL_b_decode_conditional_expression_swapped', ['C20'], 'R20.d',
+  (FL, _DECODE, "        tb_str = tb_str.decode('utf-8') if isinstance(tb_str, str) else tb_str\n"))
+T('pkgL_t_decode_only_bytes', ['C20'],
+  (FL, _DECODE, "        if isinstance(tb_str, bytes):\n            tb_str = tb_str.decode('utf-8')\n"))
+T('pkgL_t_decode_conditional_expression', ['C20'],
+  (FL, _DECODE + "        tb_lines = tb_str.lstrip().splitlines()\n",
+       "        text = tb_str if isinstance(tb_str, str) else tb_str.decode('utf-8')\n        tb_lines = text.lstrip().splitlines()\n"))
+
+# ------------------------------------------------------------------ R20.e (2): the builder passes on what it was handed
+B('pkgL_b_builder_passes_configured_files', ['C20'], 'R20.e',
+  (SV, "        err_app = flaw.create_app(tb_str, monitored_files)", "        err_app = flaw.create_app(tb_str, list(extra_files or ()))"))
+B('pkgL_b_builder_passes_file_list_as_text', ['C20'], 'R20.e',
+  (SV, "        err_app = flaw.create_app(tb_str, monitored_files)", "        err_app = flaw.create_app(u'\\n'.join(monitored_files), monitored_files)"))
+T('pkgL_t_builder_passes_copy_of_files', ['C20'],
+  (SV, "        err_app = flaw.create_app(tb_str, monitored_files)", "        err_app = flaw.create_app(tb_str, list(monitored_files))"))
+
+# ------------------------------------------------------------------ realistic regressions hidden inside refactorings (pass 4, part c)
+# c1  guard inverted in an extracted predicate (server.py): the reader's branches hang on a helper that answers the opposite
+B('pkgL_r_report_predicate_inverted', ['C20'], 'R20.g',
+  (SV, _BRANCHES, "                if _is_report_line(line_text):\n"
+                  "                    to_mon[:] = literal_eval(line_text[len(_MON_PREFIX):])\n                    continue\n"
+                  "                sys.stderr.write(line_text)\n                stderr_buff.append(line_text)\n"),
+  (SV, "def restart_with_reloader(error_func=None):\n",
+       "def _is_report_line(line_text):\n    \"The line on which the child announces the files it monitors.\"\n"
+       "    return not line_text.startswith(_MON_PREFIX)\n\n\ndef restart_with_reloader(error_func=None):\n"))
+# c2  the last line dropped by an off-by-one / the wrong one of two similarly named lists searched (flaw.py)
+B('pkgL_r_search_runs_over_frame_lines', ['C20'], 'R20.f',
+  (FL, "            frame_lines = tb_lines[1:-1]\n            frame_re = _frame_re\n", "            body_lines, frame_re = tb_lines[1:-1], _frame_re\n"),
+  (FL, "            frame_lines = tb_lines[:-2]\n            frame_re = _se_frame_re\n", "            body_lines, frame_re = tb_lines[:-2], _se_frame_re\n"),
+  (FL, "        for line in reversed(tb_lines):\n", "        for line in reversed(body_lines):\n"),
+  (FL, "        for pair_idx in range(0, len(frame_lines), 2):\n            frame_line = frame_lines[pair_idx].strip()\n",
+       "        frame_lines = body_lines\n        for pair_idx in range(0, len(frame_lines), 2):\n            frame_line = frame_lines[pair_idx].strip()\n"))
+# c3  the wrong one of two similarly named variables passed on (server.py): the extracted page starter joins the file list
+B('pkgL_r_error_page_helper_joins_wrong_list', ['C20'], 'R20.g',
+  (SV, "            enable_tty_echo()\n" + _JOIN + _HOOK, "            err_server = _start_error_page(error_func, stderr_buff, to_mon)\n"),
+  (SV, "def restart_with_reloader(error_func=None):\n",
+       "def _start_error_page(error_func, stderr_lines, mon_files):\n    \"Serve the failsafe for what the child left on stderr.\"\n"
+       "    enable_tty_echo()\n    return error_func(''.join(mon_files), mon_files)\n\n\ndef restart_with_reloader(error_func=None):\n"))
+# c4  an except clause narrowed while the endpoint's text handling moves into a helper (flaw.py)
+B('pkgL_r_last_line_helper_narrow_except', ['C20'], 'R20.b',
+  (FL, _LAST, "    last_line = _last_line_of(tb_str)\n"),
+  (FL, "def get_flaw_info(tb_str,", "def _last_line_of(text):\n    \"The last line of the text; an empty text has none.\"\n    try:\n"
+                                    "        return text.splitlines()[-1]\n    except IndexError:\n        return u'Unknown error'\n\n\ndef get_flaw_info(tb_str,"))
+# c5  a finally moved so that the clean-up is skipped on one path (server.py): only the ways out of the function shut down
+B('pkgL_r_cleanup_moved_to_the_exits', ['C20'], 'R20.h',
+  (SV, _WAIT, "            try:\n                reloader_loop(to_mon, 1)\n            except KeyboardInterrupt:\n                exit_code = 0\n"
+              "            except SystemExit as se:\n                if se.code == 3:\n                    continue\n                exit_code = se.code\n"
+              "            else:\n                exit_code = 0\n            try:\n                return exit_code\n            finally:\n"
+              "                err_server.shutdown()\n                err_server.server_close()\n"))
+# c6  guard inverted in an extracted predicate (flaw.py): the in-place sort runs exactly when there is nothing to sort
+B('pkgL_r_sort_guard_predicate_inverted', ['C20'], 'R20.b',
+  (FL, "    if monitored_files:\n        monitored_files.sort(key=lambda x: len(x))\n",
+       "    if _nothing_to_sort(monitored_files):\n        monitored_files.sort(key=len)\n"),
+  (FL, "def create_app(traceback_string, monitored_files=None):\n",
+       "def _nothing_to_sort(files):\n    return files is None or len(files) < 2\n\n\ndef create_app(traceback_string, monitored_files=None):\n"))
+# c7  the wrong one of two similarly named lists put under the wrong key when the resources move into a builder (flaw.py)
+B('pkgL_r_resources_builder_swaps_lists', ['C20'], 'R20.b',
+  (FL, _RESOURCES, "    resources = _make_resources(traceback_string, parsed_error, monitored_files, non_site_files)\n"),
+  (FL, "def get_flaw_info(tb_str,", "def _make_resources(text, parsed, all_files, own_files):\n"
+                                    "    return dict(tb_str=text, parsed_error=parsed, all_mon_files=own_files, mon_files=all_files)\n\n\ndef get_flaw_info(tb_str,"))
+# c8  guard inverted when the bytes handling of the parser is extracted (flaw.py): every text is "decoded"
+B('pkgL_r_text_coercion_helper_inverted', ['C20'], 'R20.d',
+  (FL, _DECODE, "        tb_str = _as_text(tb_str)\n"),
+  (FL, "class _ParsedTB(object):\n", "def _as_text(value):\n    \"Tracebacks read from a pipe arrive as bytes.\"\n    if isinstance(value, str):\n"
+                                     "        return value.decode('utf-8')\n    return value\n\n\nclass _ParsedTB(object):\n"))
+
+
+# ------------------------------------------------------------------ R20.d (3): what the parser made is what the {#section} around {exc_type} reads
+B('pkgL_b_section_reads_other_value', ['C20'], 'R20.d', (FL, "            'parsed_err': parsed_error,\n", "            'parsed_err': mon_files,\n"))
+B('pkgL_b_parsed_resource_is_constant', ['C20'], 'R20.d', (FL, "                 'parsed_error': parsed_error,\n", "                 'parsed_error': {},\n"))
+B('pkgL_b_section_value_from_nowhere', ['C20'], 'R20.d', (FL, "            'parsed_err': parsed_error,\n", "            'parsed_err': {'exc_type': u'Error', 'exc_msg': u''},\n"))
+B('pkgL_b_parsed_resource_is_other_local', ['C20'], 'R20.d',
+  (FL, _RESOURCES, "    summary = {'files': len(non_site_files)}\n" + _RESOURCES.replace("'parsed_error': parsed_error", "'parsed_error': summary")))
+T('pkgL_t_parsed_value_renamed_through', ['C20'],
+  (FL, "                 'parsed_error': parsed_error,\n", "                 'error_info': parsed_error,\n"),
+  (FL, "def get_flaw_info(tb_str, parsed_error,", "def get_flaw_info(tb_str, error_info,"),
+  (FL, "            'parsed_err': parsed_error,\n", "            'parsed_err': error_info,\n"))
+
+
+# ------------------------------------------------------------------ R20.h (2): the hook that reaches the restart loop is the builder of the failsafe
+B('pkgL_b_restart_loop_started_without_hook', ['C20'], 'R20.h',
+  (SV, "        sys.exit(restart_with_reloader(error_func=error_func))\n", "        sys.exit(restart_with_reloader())\n"))
+B('pkgL_b_reloader_started_without_hook', ['C20'], 'R20.h',
+  (SV, "        run_with_reloader(serve_forever, extra_files, reloader_interval,\n                          error_func=serve_error_app)\n",
+       "        run_with_reloader(serve_forever, extra_files, reloader_interval)\n"))
+B('pkgL_b_hook_is_the_real_server', ['C20'], 'R20.h',
+  (SV, "                          error_func=serve_error_app)\n", "                          error_func=serve_forever)\n"))
+T('pkgL_t_hook_passed_positionally_under_other_name', ['C20'],
+  (SV, "        sys.exit(restart_with_reloader(error_func=error_func))\n", "        on_error = error_func\n        sys.exit(restart_with_reloader(on_error))\n"),
+  (SV, "                          error_func=serve_error_app)\n", "                          serve_error_app)\n"))
+
+
+# ------------------------------------------------------------------ R20.k: file names are handled by total string operations only
+_RET = "    except:\n        pass\n\n    return ret\n"
+_SORT = "        monitored_files.sort(key=lambda x: len(x))\n"
+B('pkgL_b_files_sorted_by_mtime', ['C20'], 'R20.k', (FL, _SORT, "        monitored_files.sort(key=lambda x: os.path.getmtime(x), reverse=True)\n"))
+B('pkgL_b_files_sorted_by_mtime_reference', ['C20'], 'R20.k', (FL, _SORT, "        monitored_files.sort(key=os.path.getmtime, reverse=True)\n"))
+B('pkgL_b_names_made_relative', ['C20'], 'R20.k',
+  (FL, _RET, "    except:\n        pass\n\n    ret = [os.path.relpath(fn) for fn in ret]\n    return ret\n"))
+B('pkgL_b_hidden_files_by_first_character', ['C20'], 'R20.k',
+  (FL, _RET, "    except:\n        pass\n\n    ret = [fn for fn in ret if os.path.basename(fn)[0] != '.']\n    return ret\n"))
+B('pkgL_b_basename_by_rindex', ['C20'], 'R20.k',
+  (FL, _RET, "    except:\n        pass\n\n    ret = [fn for fn in ret if not fn[fn.rindex(os.sep) + 1:].startswith('.')]\n    return ret\n"))
+B('pkgL_b_containment_by_commonpath_in_public_helper', ['C20'], 'R20.k',
+  (FL, "    ret = [fn for fn in ret if not fn.startswith(main_lib_dir)]\n", "    ret = [fn for fn in ret if not is_inside(fn, main_lib_dir)]\n"),
+  (FL, "def _filter_site_files(paths):\n", "def is_inside(path, directory):\n    return os.path.commonpath([path, directory]) == directory\n\n\n"
+                                           "def _filter_site_files(paths):\n"))
+B('pkgL_b_only_existing_sources_kept', ['C20'], 'R20.k',
+  (FL, _RET, "    except:\n        pass\n\n    kept = []\n    for fn in ret:\n        with open(fn) as source:\n            if source.read(1):\n"
+             "                kept.append(fn)\n    return kept\n"))
+T('pkgL_t_hidden_files_by_basename_prefix', ['C20'],
+  (FL, _RET, "    except:\n        pass\n\n    ret = [fn for fn in ret if not os.path.basename(fn).startswith('.')]\n    return ret\n"))
+T('pkgL_t_hidden_files_by_slice', ['C20'],
+  (FL, _RET, "    except:\n        pass\n\n    ret = [fn for fn in ret if os.path.basename(fn)[:1] != '.']\n    return ret\n"))
+T('pkgL_t_partial_operation_under_catch_all', ['C20'],
+  (FL, _RET, "    except:\n        pass\n\n    try:\n        here = os.getcwd()\n        ret = [fn for fn in ret if os.path.commonpath([fn, here]) != here or True]\n"
+             "    except Exception:\n        pass\n    return ret\n"))
+T('pkgL_t_files_sorted_by_name_and_length', ['C20'], (FL, _SORT, "        monitored_files.sort(key=lambda x: (len(x), x.lower()))\n"))
